@@ -36,7 +36,7 @@ def check(ctx):
         f = ctx.model.module(rel).func(q)
         ms = [c for c in calls(f, "np.min_scalar_type")]
         a0 = unparse(ms[0].args[0]) if len(ms) == 1 else ""
-        ok = len(ms) == 1 and a0.startswith("max(*chunks[axis], ") and a0.endswith("*map(len, new_chunks))")
+        ok = len(ms) == 1 and a0.startswith("max(*chunks[axis], ") and (a0.endswith("*map(len, new_chunks))") or a0.endswith("*map(len, self._new_chunks))"))
         ctx.ob("ALG.take.index-dtype", f, "np.min_scalar_type(max(*chunks[axis], <limit>, *map(len, new_chunks))): wide enough for offsets into every input chunk and positions in every output chunk", ok, "" if ok else "offsets into an input chunk (or positions in an output chunk) longer than the limit wrap around in the narrow dtype: wrong elements are taken")
     # ---------------- vindex: bounds are checked against the shape AFTER the non-fancy part of the index is applied
     vi = ctx.model.module("dask/array/core.py").func("_vindex")
